@@ -1,6 +1,11 @@
 package main
 
-import "golang.org/x/tools/go/ssa"
+import (
+	"fmt"
+	"strings"
+
+	"golang.org/x/tools/go/ssa"
+)
 
 // Reviewed definitions of the small kernel functions of the index and the log reader. Each is compared as a set of
 // canonical effects (stores, returns) and branch conditions - parameters by position, fields by qualified name, locals
@@ -134,6 +139,76 @@ var kernelShapes = map[string]struct {
 	},
 }
 
+// kernelGuards: reviewed (effect, condition, truth) triples of kernel functions - which branch does what. The set of
+// effects and the set of conditions alone would not notice two branches being swapped. Conditions are in the
+// normal form of normCondText, so an inverted test with swapped branches reads the same; an effect that a
+// reviewed alternative formulation does not have is skipped.
+var kernelGuards = map[string][]string{
+	"(*pogreb.index).bucketIndex": {
+		"return (p1&((1<<(p0.level+1))-1)) when ((p1&((1<<p0.level)-1))<p0.splitBucketIdx)=true",
+		"return (p1&((1<<p0.level)-1)) when ((p1&((1<<p0.level)-1))<p0.splitBucketIdx)=false",
+	},
+	"(*pogreb.bucket).del": {
+		"store p0.slots[phi] = p0.slots[(phi+1)] [loop] when (phi<30)=true",
+		"store p0.slots[phi] = zero when (phi<30)=false",
+	},
+	"(*pogreb.slotWriter).insert": {
+		"store p0.bucket = (*pogreb.index).createOverflowBucket(p2)#0 when (31==p0.slotIdx)=true",
+		"store p0.bucket.bucket.next = (*pogreb.index).createOverflowBucket(p2)#0.offset when (31==p0.slotIdx)=true",
+		"store p0.prevBuckets = append(p0.prevBuckets,new:[1]*github.com/akrylysov/pogreb.bucketHandle[:]) when (31==p0.slotIdx)=true",
+		"store p0.slotIdx = 0 when (31==p0.slotIdx)=true",
+	},
+	"(*pogreb.index).createOverflowBucket": {
+		"store p0.freeBucketOffs = p0.freeBucketOffs[1:] when (0<len(p0.freeBucketOffs))=true",
+		"return nil, (*pogreb.file).extend(p0.overflow,512)#1 when (0<len(p0.freeBucketOffs))=false",
+	},
+	"(*pogreb.slotWriter).write": {
+		"return (*pogreb.bucketHandle).write(p0.bucket) when (phi<0)=true",
+	},
+	"(*pogreb.bucketIterator).next": {
+		"return zero, pogreb.ErrIterationDone when (0==p0.off)=true",
+		"store p0.f = p0.overflow when (0==p0.off)=false",
+		"store p0.off = new:pogreb.bucketHandle.bucket.next when ((*pogreb.bucketHandle).read(new:pogreb.bucketHandle)==nil)=true",
+	},
+}
+
+// checkGuards verifies the reviewed branch bindings of kernel function k.
+func checkGuards(r *Run, p *Program, rule, k string) {
+	triples := kernelGuards[k]
+	f := p.Fn(k)
+	if len(triples) == 0 || f == nil {
+		return
+	}
+	have := map[string]bool{}
+	for _, g := range effectGuards(f) {
+		have[g] = true
+	}
+	effs := map[string]bool{}
+	for _, e := range effects(f) {
+		effs[e] = true
+	}
+	var bad []string
+	n := 0
+	for _, t := range triples {
+		i := strings.LastIndex(t, " when ")
+		if i < 0 || !effs[t[:i]] {
+			continue // the effect is absent (alternative formulation); the effect sets are compared separately
+		}
+		n++
+		if !have[t] {
+			bad = append(bad, t)
+		}
+	}
+	if len(bad) == 0 {
+		if n > 0 {
+			r.ok(rule, k+":branches", p.Pos(f.Pos()), fmt.Sprintf("%d effects sit on the reviewed side of their branch condition", n), true)
+		}
+		return
+	}
+	s := kernelShapes[k]
+	r.bad(rule, k+":branches", p.Pos(f.Pos()), k+" performs a reviewed effect on the other side of its branch condition (expected: "+strings.Join(bad, "; ")+"). "+s.consequence)
+}
+
 func ruleKernelShapes(keys ...string) ruleFn {
 	return func(r *Run, p *Program, rule string) {
 		for _, k := range keys {
@@ -149,9 +224,11 @@ func ruleKernelShapes(keys ...string) ruleFn {
 			}
 			if alts := kernelAlternatives[k]; len(alts) > 0 && matchesAlternative(p, k, alts) {
 				r.ok(rule, k, p.Pos(p.Fn(k).Pos()), s.what+" (reviewed alternative formulation)", true)
+				checkGuards(r, p, rule, k)
 				continue
 			}
 			checkShape(r, p, rule, k, s.want, s.what, s.consequence)
+			checkGuards(r, p, rule, k)
 		}
 		r.universe(rule, len(keys), 1)
 	}
